@@ -465,13 +465,15 @@ def run(chk):
                        'observations are not taken from documents whose processing was aborted by an exception (their tree is incomplete)',
                        'class attributes named @arguments, @locals, @hasgenid are caches of the class definition and are not compared']
     setup()
-    mf, md = (2, 2) if tier == 'quick' else (3, 2)
-    res = tlc.run('Isolation', cfg_text=CFG % ((mf, md) + flags + ('',)), timeout=3400, heap='12g', want_beh=False)
-    chk.add_tlc(res, 'isolation(MaxFeats=%d,MaxDocs=%d)' % (mf, md))
-    if not res.ok:
-        chk.violation('design:' + ','.join(res.violated or ['error']), 'TLC found a counterexample in the Isolation design: %s\n%s' % (res.violated, res.trace_text[:2500]))
+    # 2 documents x <= 2 features is 4.5M histories; 3 features x 2 documents would be 873M, so thorough adds 3 documents of one feature
+    # and single documents of 3 features instead
+    for mf, md in ([(2, 2)] if tier == 'quick' else [(2, 2), (1, 3), (3, 1)]):
+        res = tlc.run('Isolation', cfg_text=CFG % ((mf, md) + flags + ('',)), timeout=3400, heap='12g', want_beh=False)
+        chk.add_tlc(res, 'isolation(MaxFeats=%d,MaxDocs=%d)' % (mf, md))
+        if not res.ok:
+            chk.violation('design:' + ','.join(res.violated or ['error']), 'TLC found a counterexample in the Isolation design: %s\n%s' % (res.violated, res.trace_text[:2500]))
     hists = []
-    for mf2, md2 in ((1, 2), (2, 1)):
+    for mf2, md2 in (((1, 2), (2, 1)) if tier == 'quick' else ((1, 2), (3, 1))):
         r2 = tlc.run('Isolation', cfg_text=CFG % ((mf2, md2) + flags + ('INVARIANT Emit',)), timeout=3400, heap='12g')
         chk.add_tlc(r2, 'isolation-emit(MaxFeats=%d,MaxDocs=%d)' % (mf2, md2))
         hists.extend(r2.beh)
